@@ -284,11 +284,22 @@ class Component( ComponentLevel7 ):
         host._dsl.U_U_constraints.add( c )
         top._dsl.all_U_U_constraints.add( c )
       elif table == "M_constraints":
-        x0, x1 = name
-        c = ( eval(x0) if isinstance( x0, str ) else x0,
-              eval(x1) if isinstance( x1, str ) else x1, cons )
+        def by_object( x ):
+          if isinstance( x, str ):   return eval( x, { "s": s } )
+          if isinstance( x, tuple ): return eval( x[0], { "s": s } )._dsl.name_upblk.get( x[1] )
+          return x
+        c = ( by_object( name[0] ), by_object( name[1] ), cons )
+        if c[0] is None or c[1] is None:
+          continue # the new component has no block of that name
         host._dsl.M_constraints.add( c )
         top._dsl.all_M_constraints.add( c )
+      elif table.endswith( ":blk" ):
+        table = table[:-4]
+        for ( sign, comp_name, blk_name ) in cons:
+          blk = eval( comp_name )._dsl.name_upblk.get( blk_name )
+          if blk is not None:
+            getattr( host._dsl, table )[ name ].add( (sign, blk) )
+            getattr( top._dsl, "all_" + table )[ name ].add( (sign, blk) )
       else:
         k = eval(name)
         getattr( host._dsl, table )[k] |= cons
@@ -471,17 +482,32 @@ class Component( ComponentLevel7 ):
               del top_table[k]
             saved_constraints.append( (host, table, repr(k), cons) )
 
+          # ... or name an update block of the deleted component on the
+          # other side ( U( s.a.get_update_block("up_a") ) < RD( s.w ) )
+          for k, cons in list( host_table.items() ):
+            stale = { c for c in cons if c[1] in removed_blks }
+            if stale:
+              host_table[k] -= stale
+              top_table[k]  -= stale
+              if not host_table[k]: del host_table[k]
+              if not top_table[k]:  del top_table[k]
+              saved_constraints.append( (host, table + ":blk", k,
+                { ( sign, repr(removed_blks[b]), b.__name__ ) for (sign, b) in stale }) )
+
         # method ports and method interfaces ( M( s.q.deq ) with a
-        # non-blocking deq )
+        # non-blocking deq ), also against a block of the deleted component
+        def by_name( x ):
+          if x in removed_callables: return repr(x)
+          if x in removed_blks:      return ( repr(removed_blks[x]), x.__name__ )
+          return x
         stale = { c for c in getattr( host._dsl, "M_constraints", () )
-                  if c[0] in removed_callables or c[1] in removed_callables }
+                  if c[0] in removed_callables or c[1] in removed_callables or
+                     c[0] in removed_blks      or c[1] in removed_blks }
         if stale:
           host._dsl.M_constraints -= stale
           top._dsl.all_M_constraints -= stale
           for (x0, x1, is_equal) in stale:
-            saved_constraints.append( (host, "M_constraints",
-              ( repr(x0) if x0 in removed_callables else x0,
-                repr(x1) if x1 in removed_callables else x1 ), is_equal) )
+            saved_constraints.append( (host, "M_constraints", ( by_name(x0), by_name(x1) ), is_equal) )
 
         # ordering constraints on update blocks of the deleted components
         # ( U(up) < U( s.c.get_update_block("up_child") ) ): saved as
